@@ -3,6 +3,8 @@ package verifsim
 import (
 	"errors"
 	"fmt"
+	"os"
+	"path/filepath"
 	"sort"
 	"strings"
 	"sync"
@@ -107,7 +109,7 @@ func buildRealGraphC(g *GraphSpec, stages map[string]*scheduler.Stage, built map
 		}
 		switch s.Cond {
 		case "true":
-			st.Condition = "/bin/true"
+			st.Condition = trueCondition(s.Name)
 		case "false":
 			st.Condition = falseCondition(s.Name)
 		case "missing":
@@ -146,11 +148,56 @@ var (
 // gidStage: goroutine id of a stage goroutine -> unique stage name (identity of preemption parks)
 var gidStage sync.Map
 
+// flipConds: stage (unique name) -> path of its condition, a symbolic link that says yes until the
+// stage's task is running and no from then on (a condition belongs to the moment a stage is
+// started; what it says later must not matter)
+var (
+	flipMu    sync.Mutex
+	flipConds = map[string]string{}
+	flipSeq   int
+)
+
+func trueCondition(stage string) string {
+	if byteSum(stage)%2 == 0 {
+		return "/bin/true"
+	}
+	flipMu.Lock()
+	defer flipMu.Unlock()
+	flipSeq++
+	p := filepath.Join(scratchRoot(), fmt.Sprintf("cond-flip-%d", flipSeq))
+	os.MkdirAll(scratchRoot(), 0o755)
+	os.Remove(p)
+	if os.Symlink("/bin/true", p) != nil {
+		return "/bin/true"
+	}
+	flipConds[stage] = p
+	return p
+}
+
+// flipCondition: from now on the stage's condition says no.
+func flipCondition(stage string) bool {
+	flipMu.Lock()
+	p, ok := flipConds[stage]
+	delete(flipConds, stage)
+	flipMu.Unlock()
+	if !ok {
+		return false
+	}
+	os.Remove(p)
+	return os.Symlink("/bin/false", p) == nil
+}
+
 func resetUniq() {
 	uniqMu.Lock()
 	uniqName = map[*scheduler.Stage]string{}
 	uniqMu.Unlock()
 	gidStage = sync.Map{}
+	flipMu.Lock()
+	for _, p := range flipConds {
+		os.Remove(p)
+	}
+	flipConds = map[string]string{}
+	flipMu.Unlock()
 }
 
 func uniqOf(st *scheduler.Stage) string {
@@ -348,6 +395,9 @@ func (e *schedEngine) onEvent(ev *Event) {
 	c := e.c
 	switch ev.Kind {
 	case "run-enter":
+		if flipCondition(ev.Subject) {
+			c.Count("conditions_turned_false_while_the_stage_runs")
+		}
 		x := e.byName[ev.Subject]
 		e.enters[ev.Subject]++
 		if e.enters[ev.Subject] > 1 {
